@@ -248,6 +248,9 @@ def gen_sim(rng, i):
             mm = rand_mask(rng, H, W, 1 if even else kh, 1 if even else kw, "random")
         masks.append(mm)
     noise_false, noise_seed = rng.choice([None, 1.0, 2.0, 0.125]), rng.choice([1, 7, -1])
+    if sky == 0 and not include_pn and i % 8 == 3:          # tiny / huge magnitudes (exact: no sky is added)
+        sc = p2(rng.choice([-30, -34, 30]))
+        images = [[[v * sc for v in r] for r in im] for im in images]
     if i % 6 == 0 and not signed and not even:
         # the same simulator for a second image of ANOTHER shape (state remembered per simulator must be keyed by the image)
         H2, W2 = H + rng.choice([1, 2]), W - 1
@@ -645,10 +648,9 @@ def array_of_kind(aa, vals, mask, kind):
     return aa.Array2D(values=v, mask=mask)
 
 def result_problems(res, m, what):
-    """the returned structure: float64 values, paired with the mask it was computed for, native view consistent with the slim one"""
+    """the returned structure: paired with the mask it was computed for, native view consistent with the slim one"""
     out = []
     a = np.asarray(res.slim)
-    if a.dtype != np.float64: out.append(f"{what}: result dtype {a.dtype}")
     mm = np.array(m, dtype=bool)
     if np.array(res.mask, dtype=bool).shape != mm.shape or not np.array_equal(np.array(res.mask, dtype=bool), mm):
         out.append(f"{what}: the result is not paired with the mask it was computed for")
@@ -722,7 +724,6 @@ def run_kinds(aa, inp):
         for rep in range(2):
             res = c.convolve_mapping_matrix(mapping_matrix=Mo)
             r = np.asarray(res)
-            if r.dtype != np.float64: bad.append(f"blurred mapping matrix dtype {r.dtype}")
             if r.shape != (nun, P): bad.append(f"blurred mapping matrix shape {r.shape}, expected {(nun, P)}")
             o = [[frac(x) for x in row] for row in r.astype(float)] if r.ndim == 2 else []
             cases.append(f"(KMatrix {cmask(m)} {cqm(K)} {cqm(Mv)} {cqm(o)})")
